@@ -108,6 +108,19 @@ def classify (s : List Char) : Tok :=
 
 /-! ## the tokeniser -/
 
+/-- body of a string/character constant opened by `q`: (unescaped body, text after the closing quote, only modelled escapes used) -/
+def strConstBody (q : Char) : List Char → List Char → Option (List Char × List Char × Bool)
+  | [], _ => none
+  | c :: rest, acc =>
+    if c == q then some (acc.reverse, rest, true)
+    else if c == '\\' then
+      match rest with
+      | e :: rest' =>
+        if e == '\\' ∨ e == '"' ∨ e == '\'' then strConstBody q rest' (e :: acc)
+        else (strConstBody q rest' (e :: acc)).map fun r => (r.1, r.2.1, false)
+      | [] => none
+    else strConstBody q rest (c :: acc)
+
 def lexAux : Nat → List Char → List Char → List Tok → List Tok
   | 0, _, _, acc => acc.reverse
   | fuel + 1, text, cur, acc =>
@@ -120,10 +133,11 @@ def lexAux : Nat → List Char → List Char → List Tok → List Tok
       else if c == ')' then lexAux fuel rest [] (.rp :: flush acc)
       else if c == ',' then lexAux fuel rest [] (.comma :: flush acc)
       else if c == '"' ∨ (c == '\'' ∧ cur.isEmpty) then
-        let body := rest.takeWhile (· != c)
-        let after := (rest.dropWhile (· != c)).drop 1
-        if body.contains '\\' then lexAux fuel after [] (.bad :: flush acc)
-        else lexAux fuel after [] (.atom (.str body) :: flush acc)
+        -- the constant ends at the first quote that is not escaped; `\\\\`, `\\"`, `\\'` stand for the second character
+        -- (EvalStrExpression's scan and ConstStringVal/ProcessBk agree on that); other escapes are outside the model
+        match strConstBody c rest [] with
+        | some (body, after, ok) => lexAux fuel after [] ((if ok then .atom (.str body) else .bad) :: flush acc)
+        | none => lexAux fuel [] [] (.bad :: flush acc)
       else
         let cs := candsOf text
         match cs.getLast? with
